@@ -14,6 +14,11 @@ def gen(tier, seed, stream, k):
     fmt = rnd.choice(["LP", "MPS"])
     fam = rnd.choice(["small-rand", "planted-opt", "planted-opt", "degenerate", "planted-inf", "thin", "small-int"])
     m = gen_lp.family(rnd, fam)
+    if stream == "valid" and k % 25 == 4:
+        # rationals of hundreds to tens of thousands of digits: the values in the solution file outgrow any fixed buffer
+        m = iofam.io_model(rnd, "bignum")
+        for c in m.cols:
+            c.isint = 0
     m.rows = [r for r in m.rows if r.coef]
     if not m.rows or not m.cols:
         m = gen_lp.planted_optimal(rnd, 3, 4)
@@ -121,6 +126,15 @@ def judge_one(g, bindir, wd):
     exp = g["exp"]
     open(os.path.join(wd, g["fname"]), "wb").write(g["data"])
     sol = "out%d.sol%s" % (g["k"], g["solext"])
+    if g["stream"] == "valid" and g["k"] % 40 == 7:
+        # a solution file that cannot be created: whatever esolver answers, it must not crash
+        rc, err, san = run_esolver(bindir, g["flavour"], wd, list(g["opts"]) + ["-O", os.path.join(wd, "no", "such", "dir", sol), g["fname"]])
+        C["runs"] = 1
+        C["unwritable-O"] = 1
+        if rc is None or san or rc < 0 or rc == 86:
+            cr = run.triage(san or err.decode("latin-1")[-3000:], rc if rc is not None else -9)
+            return [("C19|unwritable-O|%s|%s" % (cr["kind"], ">".join(cr["frames"])), "esolver -O <unwritable> died: %s\n%s" % (cr["kind"], cr["text"][:1200]))], C, True
+        return V, C, True
     args = list(g["opts"]) + ["-O", sol]
     if g["basis"]:
         args += ["-b", "out%d.bas" % g["k"]]
@@ -141,10 +155,18 @@ def judge_one(g, bindir, wd):
     txt = read_sol(os.path.join(wd, sol))
     if txt is None:
         return [("C19|no-solution-file", "esolver exit 0 but wrote no solution file %s" % sol)], C, True
-    S = parse_sol(txt)
+    try:
+        S = parse_sol(txt)
+    except (ValueError, ZeroDivisionError) as e:
+        return [("C19|solution-file-unparsable", "a line of the solution file is not `name = exact fraction` (%s)\n%s" % (str(e)[:200], txt[:600]))], C, True
     truth = refsolve.solve(exp) if exp.nrows <= 16 and exp.ncols <= 22 else None
     C["status:%s" % S["status"]] = 1
-    if truth and truth["status"] in ("OPTIMAL", "INFEASIBLE", "UNBOUNDED") and S["status"] != truth["status"]:
+    if S.get("junk"):
+        V.append(("C19|junk-lines", "the solution file has lines that are neither a section header nor `name = fraction`: %r" % S["junk"][:3]))
+    if S["status"] == "UNDEFINED":
+        # the program reports what the library computed: a non-definitive library answer is C03's business, not a misreport
+        C["undefined-reported(truth %s)" % (truth["status"] if truth else "?")] = 1
+    elif truth and truth["status"] in ("OPTIMAL", "INFEASIBLE", "UNBOUNDED") and S["status"] != truth["status"]:
         V.append(("C19|status:%s-truth:%s" % (S["status"], truth["status"]), "solution file says %s, certified truth %s (opts %s)" % (S["status"], truth["status"], g["opts"])))
     if S["status"] == "OPTIMAL":
         names_c = [c.name for c in exp.cols]
